@@ -63,7 +63,7 @@ func C11(c *vf.Check) {
 				if j >= 2 {
 					break
 				}
-				src := (&srcRenderer{md: coMode, api: apiOf(o.Import)}).genFunc("G", arr(run.Progs[p]), trailingOf(o))
+				src := (&srcRenderer{md: coMode, api: apiOf(o.Import), form: o.Form}).genFunc("G", arr(run.Progs[p]), trailingOf(o))
 				c.Violation(J{"family": fam, "config": what, "prog": run.Progs[p], "status": run.Status[p], "source": src},
 					fmt.Sprintf("[%s, %s] the compiler fails on a supported program (%d programs with this message): %s\n%s", fam, what, len(v), run.Status[p], src))
 			}
@@ -83,18 +83,22 @@ func C11(c *vf.Check) {
 		}
 	}
 	runCfg("ctlx", tier(c, "3", "4"), tier(c, "FALSE", "TRUE"), srcOpts{}, "dot import, return only where required", 1)
-	every := tier(c, 7, 1)
+	every := tier(c, 14, 1)
 	sz := "3"
 	runCfg("ctl", sz, "FALSE", srcOpts{Import: "named"}, "import by default name co.", every)
 	runCfg("ctl", sz, "FALSE", srcOpts{Import: "renamed"}, "renamed import gc.", every)
 	runCfg("ctl", sz, "FALSE", srcOpts{Trailing: "always"}, "dot import, trailing return nil always", every)
+	for _, form := range []string{"method", "generic", "lit", "nestedlit"} {
+		runCfg("ctl", sz, "FALSE", srcOpts{Form: form}, "generators declared as "+form, every)
+	}
+	runCfg("ctl", sz, "FALSE", srcOpts{Form: "method", Import: "named"}, "method generators, API imported by name", every*2)
 	runCfg("ctl", sz, "FALSE", srcOpts{Import: "dot+seq"}, "seq already imported by the source under its default name", every)
 	runCfg("ctl", sz, "FALSE", srcOpts{Import: "dot+sq"}, "seq already imported by the source under another name", every)
 	c.Cov["traces_validated_against_impl"] = int64(total)
 	c.Cov["evaluations"] = int64(total)
 	c.Cov["distinct_nontrivial"] = int64(total)
 	c.Cov["disagreements_checked"] = int64(failed)
-	c.Cov["rule"] = "every program of F_ctlx (control flow with all switch forms) up to the size bound in the default configuration, and a covering subset (quick: every 7th program; thorough: all) under each other configuration; each is compiled by the real tool and the output built without the co tag; distinct = distinct program x configuration"
+	c.Cov["rule"] = "every program of F_ctlx (control flow with all switch forms) up to the size bound in the default configuration, and a covering subset (quick: every 14th program; thorough: all) under each other configuration; each is compiled by the real tool and the output built without the co tag; distinct = distinct program x configuration"
 	c.Cov["exhaustive"] = true
 	c.Assumptions = append(c.Assumptions, "supported subset = the grammar of spec/SrcSyntax.tla + MC_Src.tla alphabets; every rendered source is first required to type-check under -tags co")
 }
